@@ -76,8 +76,11 @@ def l2_premise(ctx: Ctx):
     from .. import norm as N
     bo = ctx.func(f"{OM}._borrow")
     req = bo.params[1]
-    loops = [n for n in ast.walk(bo.node) if isinstance(n, ast.For) and isinstance(n.iter, ast.Call) and isinstance(n.iter.func, ast.Attribute)
-             and n.iter.func.attr == "items" and isinstance(n.iter.func.value, ast.Name) and isinstance(n.target, ast.Tuple)
+    def src_name(it):
+        if isinstance(it, ast.Call) and isinstance(it.func, ast.Attribute) and it.func.attr == "items" and isinstance(it.func.value, ast.Name):
+            return it.func.value.id
+        return it.id if isinstance(it, ast.Name) else None      # a list of (symbol, amount) pairs
+    loops = [n for n in ast.walk(bo.node) if isinstance(n, ast.For) and src_name(n.iter) is not None and isinstance(n.target, ast.Tuple)
              and any(isinstance(c, ast.Call) and (A.call_name(c) or "").endswith("loan_mgr.create_loan") for c in ast.walk(n))]
     ok1 = ok2 = ok3 = False
     if loops:
@@ -85,7 +88,7 @@ def l2_premise(ctx: Ctx):
         sym, amt = [e.id for e in lp.target.elts]
         ok3 = any(isinstance(c, ast.Call) and (A.call_name(c) or "").endswith("loan_mgr.create_loan") and [A.dotted(x) for x in c.args[:2]] == [sym, amt]
                   for c in ast.walk(lp))
-        dm = N.derived_map(bo, lp.iter.func.value.id)
+        dm = N.derived_map(bo, src_name(lp.iter))
         if dm is not None:
             base, key, value, filters = dm
             avail = "self._ctx.account_balances.get_available_balance(KEY_)"
